@@ -7,8 +7,8 @@ from checks import callcommon, ctxcommon
 from framework import Case
 
 PROP = "C10"
-GENERATED = ['DtypeTables', 'Core', 'SrcHints']  # generated files this check's tie depends on
-LEAN_MODULES = ["Properties.C10", "Properties.Core", "Properties.Prov.Hints"]
+GENERATED = ['DtypeTables', 'Core', 'SrcHints', 'HintLoop']  # generated files this check's tie depends on
+LEAN_MODULES = ["Properties.C10", "Properties.Core", "Properties.Prov.Hints", "Properties.CoreHints"]
 RULE = (
     "exhaustive None / conforming / violating patterns over signatures with optional hints in parameter, tuple-element (every position), "
     "field and return position (<=3 positions), spelled `T | None`, Optional[T], `None | T`, Optional[Optional[T]]; unions with other "
